@@ -24,6 +24,11 @@ ASSUMPTIONS = [
 OUTSIDE = ['more than 4 states / 2 actions', 'more than two symbolic rows at once', 'rounding']
 
 BASE = curated_shapes() + proper_shapes()
+# an absorbing state whose (never expanded) successor is reachable in no other way
+BASE.append(Shape(3, 1, [[0], [0], [0]], {(0, 0): {1: F(1, 4), 0: F(3, 4)}, (1, 0): {2: F(1)}, (2, 0): {2: F(1)}}, absorb=[1], name='absorbing-exit'))
+NCUR = len(BASE)
+from harness.common import generated_shapes as _gen
+BASE = BASE + _gen(40, smax=4, amax=2)      # thorough tier only (indices >= NCUR)
 
 
 def _fd(**kw):
@@ -56,7 +61,7 @@ def alabel_menu(kind, n):
 
 
 def bounds(tier):
-    return dict(skeletons=[s.name for s in BASE], labels=['int', 'str', 'tuple', 'frozendict', 'mixed(unsortable)'],
+    return dict(skeletons=[s.name for s in BASE[:NCUR]] + ([f'{len(BASE) - NCUR} generated skeletons (2-4 states, 1-2 actions)'] if tier != 'quick' else []), labels=['int', 'str', 'tuple', 'frozendict', 'mixed(unsortable)'],
                 symbolic_rows='<= 2 per case', max_states=[1, 2, 'inf'], explicit_or_inferred_lists=True)
 
 
@@ -78,6 +83,21 @@ def _closure(sh, P, absorbing_explicit, s0w, expand_initial_absorbing=False):
                     seen.add(ns)
                     frontier.append(ns)
     return seen
+
+
+def _outside_tag(sh, P, s0w, explicit):
+    """'' unless a listed absorbing state has a successor that is not in the state list (its successors are not expanded by
+    the reachability rule): the array builders of the repository raise KeyError there - recorded as a known finding"""
+    if explicit:
+        return ''
+    closure = _closure(sh, P, sh.absorb, s0w, expand_initial_absorbing=True)
+    for s in closure:
+        if s in sh.absorb:
+            for a in sh.avail[s]:
+                for ns, p in P[(s, a)].items():
+                    if ns not in closure and not bool(p == 0):
+                        return '[absorbing-state-with-successors-outside-the-state-list]'
+    return ''
 
 
 def _setup(sx, shape, symrows, lab, alab, s0sym):
@@ -134,7 +154,7 @@ def views(sx, shape, symrows, lab='int', alab='str', explicit=False, s0sym=True)
     L, AL = sh.slabels, sh.alabels
     with facade(sx):
         mdp = _build(sx, sh, P, rew, s0w, explicit_lists=explicit)
-        with sx.must_not_raise('views'):
+        with sx.must_not_raise('views' + _outside_tag(sh, P, s0w, explicit)):
             sl = list(mdp.state_list)
             al = list(mdp.action_list)
             tm, rm, am = mdp.transition_matrix, mdp.reward_matrix, mdp.action_matrix
@@ -241,7 +261,7 @@ def round_trip(sx, shape, symrows, lab='int', alab='str', explicit=False):
         sh = sh.with_(alabels=['b', 'a', 'c'][:sh.A][::1] + ['unused'], A=sh.A + 1)
     with facade(sx):
         m = _build(sx, sh, P, rew, s0w, explicit_lists=explicit)
-        with sx.must_not_raise('round-trip'):
+        with sx.must_not_raise('round-trip' + _outside_tag(sh, P, s0w, explicit)):
             m2 = TabularMarkovDecisionProcess.from_matrices(
                 state_list=m.state_list, action_list=m.action_list, initial_state_vec=m.initial_state_vec,
                 transition_matrix=m.transition_matrix, action_matrix=m.action_matrix, reward_matrix=m.reward_matrix,
@@ -287,11 +307,13 @@ def jobs(tier):
     o = dict(timeout_ms=15000, budget_s=(120 if tier == 'quick' else 600), max_paths=4000)
     labs = ['int', 'str', 'tuple', 'frozendict', 'mixed']
     for i, sh in enumerate(BASE):
+        if i >= NCUR and quick:
+            break
         pairs = sorted(sh.rows)
         rowsets = [[], [list(pairs[0])], [list(pairs[-1])]]
         if len(pairs) >= 2:
             rowsets.append([list(pairs[0]), list(pairs[1])])
-        if not quick:
+        if not quick and i < NCUR:
             rowsets += [[list(p)] for p in pairs[1:-1]] + [[list(a), list(b)] for a, b in itertools.combinations(pairs, 2)][:8]
         for k, rs in enumerate(rowsets):
             lab = labs[(i + k) % len(labs)] if sh.S <= 4 else 'int'
